@@ -263,6 +263,8 @@ cfg_if! {
                 Err(e) => bail!("Read error while trying to canonicalize in read_to_string_shim {}: {}", path.display(), e),
             };
             info!("Reading file '{}'", &path.display());
+            #[cfg(mathcat_verif)]
+            crate::shim_filesystem::verif_log_read(&path);
             match std::fs::read_to_string(&path) {
                 Ok(str) => return Ok(str),
                 Err(e) => bail!("Read error while trying to read {}: {}", &path.display(), e),
@@ -288,4 +290,21 @@ cfg_if! {
             };
         }
     }
+}
+
+// ---- verification hook (compiled only with --cfg mathcat_verif); see /verif/DESIGN.md §5 (H2)
+#[cfg(mathcat_verif)]
+thread_local!{
+    static VERIF_READ_LOG: std::cell::RefCell<Vec<String>> = const { std::cell::RefCell::new(Vec::new()) };
+}
+
+#[cfg(mathcat_verif)]
+pub fn verif_log_read(path: &std::path::Path) {
+    VERIF_READ_LOG.with(|log| log.borrow_mut().push(path.to_string_lossy().to_string()));
+}
+
+/// the files read_to_string_shim was asked to read since the last call (the log is emptied)
+#[cfg(mathcat_verif)]
+pub fn verif_take_read_log() -> Vec<String> {
+    return VERIF_READ_LOG.with(|log| std::mem::take(&mut *log.borrow_mut()));
 }
